@@ -201,17 +201,12 @@ func (m *omap) iter(i *interpreter) iter {
 	snap := make([]*oentry, len(m.entries))
 	copy(snap, m.entries)
 	if i.ps.mapOrderSym && len(snap) > 1 {
-		// symbolic permutation: pick each next element by a decision
-		for a := 0; a < len(snap)-1; a++ {
-			pick := a
-			for b := a; b < len(snap)-1; b++ {
-				if i.ps.branch(i.ps.freshBool("maporder")) {
-					pick = b
-					break
-				}
-				pick = b + 1
+		// symbolic iteration order: insertion order or its reverse (one decision
+		// per range; a full symbolic permutation is n! paths per range)
+		if i.ps.branch(i.ps.freshBool("maporder")) {
+			for a, b := 0, len(snap)-1; a < b; a, b = a+1, b-1 {
+				snap[a], snap[b] = snap[b], snap[a]
 			}
-			snap[a], snap[pick] = snap[pick], snap[a]
 		}
 	}
 	return &omapIter{snap: snap}
